@@ -629,3 +629,60 @@ func genOmissions(c *drv.Ctx, emit func(Case)) {
 		}
 	}
 }
+
+// apiDefaults: collectionFormat multi arrays (query and formData) that DECLARE A DEFAULT in the description, next to the same
+// arrays without one.  A default stands in for a parameter the caller did not supply; whatever list the caller does supply -
+// also [""] - is what the handler gets.
+func apiDefaults(base string) API {
+	md := func(name, loc string, def ...string) Param {
+		return Param{Name: name, Loc: loc, Kind: "multi", Type: "string", Def: def}
+	}
+	return API{Base: base, Ops: []Op{
+		{ID: "getDefs", Method: "GET", Template: []Seg{lit("defs"), ph("id")}, Produces: []string{mJSON}, Success: 200,
+			Params: []Param{sp("id", "path", "string"), md("tags", "query", "x", "y"), md("one", "query", "only"), md("none", "query"), mp("plain", "query")}},
+		{ID: "postDefs", Method: "POST", Template: []Seg{lit("defs")}, Consumes: mForm, Alt: []string{mMulti}, Produces: []string{mJSON}, Success: 201,
+			Params: []Param{md("ftags", "form", "p", "q"), md("fone", "form", ""), mp("fplain", "form"), md("tags", "query", "x", "y")}},
+	}}
+}
+
+func genDefaults(c *drv.Ctx, emit func(Case)) {
+	lists := [][]string{{""}, {"", ""}, {"a", ""}, {"", "a"}, {"a"}, {"x", "y"}, {"x"}, {" "}, {"", "", ""}}
+	for _, base := range []string{"/api", "/"} {
+		api := apiDefaults(base)
+		for _, op := range api.Ops {
+			var multis []string
+			for _, p := range op.Params {
+				if p.Kind == "multi" {
+					multis = append(multis, p.Name)
+				}
+			}
+			for _, media := range op.medias() {
+				var steps []Step
+				for li, l := range lists {
+					// the list in every array at once, and in one array while the others are omitted
+					all := map[string]Arg{}
+					for _, n := range multis {
+						all[n] = one(n, l...)
+					}
+					st := mkStep(op, all, "none", okResp, media)
+					emit(Case{API: api, Shared: true, Steps: []Step{st}})
+					steps = append(steps, st)
+					for mi, n := range multis {
+						if base != "/api" && (li+mi)%2 == 1 {
+							continue
+						}
+						solo := mkStep(op, map[string]Arg{n: one(n, l...)}, "none", okResp, media)
+						for i := range solo.Args {
+							if a := solo.Args[i]; a.Name != n && a.Name != "id" {
+								solo.Args[i].Omit = true
+							}
+						}
+						emit(Case{API: api, Shared: true, Steps: []Step{solo}})
+						steps = append(steps, solo)
+					}
+				}
+				emit(Case{API: api, Steps: steps})
+			}
+		}
+	}
+}
